@@ -452,3 +452,46 @@ Section EndToEnd.
     eapply flip_in_maps_record; eassumption.
   Qed.
 End EndToEnd.
+
+(* ------------------------------------------------------------ the heuristics flags of a reported flip *)
+Lemma flips_loop_shape n : forall i a reg br ctx rs op f,
+  In f (flips_loop n i a reg br ctx rs op) -> exists pa, f = mk_flip a pa reg br ctx.
+Proof.
+  induction n as [|n IH]; intros i a reg br ctx rs op f Hin; cbn [flips_loop] in Hin; [destruct Hin|].
+  apply in_app_or in Hin. destruct Hin as [Hin|Hin].
+  - destruct (Z.lxor a (2 ^ i) =? 0); [|destruct Hin]. destruct Hin as [<-|[]]. eexists; reflexivity.
+  - apply in_app_or in Hin. destruct Hin as [Hin|Hin]; [|eapply IH; exact Hin].
+    destruct (lookup_region rs (Z.lxor a (2 ^ i))) as [mi|]; [|destruct Hin].
+    destruct (possibly_allowed op mi); [|destruct Hin]. destruct Hin as [<-|[]]. eexists; reflexivity.
+Qed.
+
+Lemma filter_length_le {A} (p : A -> bool) l : (length (filter p l) <= length l)%nat.
+Proof. induction l as [|x t IH]; cbn; [lia|]. destruct (p x); cbn; lia. Qed.
+
+Definition ctx_count (ctx : option context) : Z :=
+  match ctx with Some (_, regs) => Z.of_nat (length regs) | None => 0 end.
+
+Lemma details_consistent a reg br ctx rs op f :
+  In f (try_bit_flips a reg br ctx rs op) ->
+  d_null (f_det f) = (f_addr f =? 0) /\
+  (d_low (f_det f) = true -> f_addr f = 0 /\ a <= LOW_ADDRESS_CUTOFF) /\
+  d_nc (f_det f) = (match br with Amd64NonCanonical => true | _ => false end) /\
+  0 <= d_nearby (f_det f) <= ctx_count ctx /\
+  (0 < d_nearby (f_det f) -> LOW_ADDRESS_CUTOFF < f_addr f) /\
+  (ctx = None -> d_nearby (f_det f) = 0 /\ d_poison (f_det f) = false).
+Proof.
+  unfold try_bit_flips.
+  destruct (match lookup_region rs a with Some mi => possibly_allowed op mi | None => false end); [intros []|].
+  destruct (br_bounds br) as [lo hi]. intros Hin. apply flips_loop_shape in Hin. destruct Hin as [pa ->].
+  unfold mk_flip, heuristics. cbn [f_addr f_det].
+  destruct ctx as [[sz regs]|]; cbn [d_null d_low d_nc d_nearby d_poison ctx_count].
+  - split; [reflexivity|]. split.
+    { intros H. apply andb_prop in H. destruct H as [H1 H2]. split; lia. }
+    split; [reflexivity|]. split.
+    { destruct (pa >? LOW_ADDRESS_CUTOFF); [|lia].
+      pose proof (filter_length_le (fun a0 => abs_diff pa a0 <=? NEARBY_REGISTER_DISTANCE) regs). lia. }
+    split; [|discriminate]. destruct (pa >? LOW_ADDRESS_CUTOFF) eqn:E; lia.
+  - split; [reflexivity|]. split.
+    { intros H. apply andb_prop in H. destruct H as [H1 H2]. split; lia. }
+    split; [reflexivity|]. split; [lia|]. split; [lia|]. intros _. split; reflexivity.
+Qed.
